@@ -31,6 +31,8 @@ func init() {
 }
 
 func runC09(w *World, r *Report) {
+	hrRemedyChainWalksAll(w, r, "R6")
+	hrTooManyRequestsStatus(w, r, "R6")
 	hrIdentityHasher(w, r, "R5")
 	hrRunOnRequestUpdates(w, r, "R6")
 	// the fold of the remedy chain: an early response (the 429 of this plugin) wins over what earlier remedies built (C07.R2)
